@@ -197,3 +197,119 @@ Proof.
   - inversion H; subst. unfold nlen in *. rewrite firstn_length. lia.
   - eapply (IH (skipn (N.to_nat s0) l)); [|exact H]. unfold nlen in *. rewrite skipn_length. lia.
 Qed.
+
+(* ================================================================ rows of a fragment *)
+Definition cs_of (f : frag) : list N := match f_created f with Some l => l | None => uniform (f_phys f) 1 end.
+Definition us_of (f : frag) : list N := match f_updated f with Some l => l | None => uniform (f_phys f) 1 end.
+(* physical rows (deleted ones included) and visible rows *)
+Definition prows (f : frag) : list vrow := combine (frag_ids f) (combine (cs_of f) (us_of f)).
+Definition vrows (f : frag) : list vrow := live (f_del f) (prows f).
+
+(* what every fragment of a table with stable row ids looks like *)
+Definition wf_frag (f : frag) : Prop :=
+  (exists ids, f_ids f = Some ids) /\
+  nlen (frag_ids f) = f_phys f /\ nlen (cs_of f) = f_phys f /\ nlen (us_of f) = f_phys f /\
+  (f_created f = None -> f_phys f = 0) /\ (f_updated f = None -> f_phys f = 0).
+
+Lemma firstn_nlen {A} (l : list A) : firstn (N.to_nat (nlen l)) l = l.
+Proof. unfold nlen. rewrite Nat2N.id. apply firstn_all. Qed.
+
+Lemma vcol_wf o phys l : (match o with Some x => x | None => uniform phys 1 end) = l -> nlen l = phys -> vcol o phys = Ok l.
+Proof.
+  intros E Hl. unfold vcol. destruct o as [x|]; subst l.
+  - rewrite Hl, N.leb_refl. f_equal. rewrite <- Hl at 1. apply firstn_nlen.
+  - reflexivity.
+Qed.
+
+Lemma frag_view_wf f : wf_frag f -> frag_view f = Ok (vrows f).
+Proof.
+  intros ((ids & Ei) & H1 & H2 & H3 & _). unfold frag_view, vrows, prows, frag_ids in *. rewrite Ei in *.
+  rewrite H1, N.eqb_refl. rewrite (vcol_wf (f_created f) (f_phys f) (cs_of f) eq_refl H2).
+  rewrite (vcol_wf (f_updated f) (f_phys f) (us_of f) eq_refl H3). reflexivity.
+Qed.
+
+Lemma view_frags_wf : forall fs, (forall f, In f fs -> wf_frag f) -> view_frags fs = Ok (flat_map vrows fs).
+Proof.
+  induction fs as [|f tl IH]; intro H; cbn [view_frags flat_map]; [reflexivity|].
+  rewrite (frag_view_wf f (H f (or_introl eq_refl))). cbn [bind]. rewrite IH by (intros g Hg; apply H; right; exact Hg).
+  reflexivity.
+Qed.
+
+Lemma in_vrows_prows f x : In x (vrows f) -> In x (prows f).
+Proof. unfold vrows, live. apply in_live_from. Qed.
+
+(* ================================================================ the ledger *)
+Lemma lget_insert V : forall ids L r,
+  lget (insert V L ids) r = if memN r ids then Some (V, V) else lget L r.
+Proof.
+  unfold insert. induction ids as [|x tl IH]; intros L r; cbn [fold_left memN existsb]; [reflexivity|].
+  rewrite IH. cbn [lget]. fold (memN r tl). rewrite (N.eqb_sym r x).
+  destruct (memN r tl); [rewrite orb_true_r; reflexivity|]. rewrite orb_false_r. destruct (x =? r); reflexivity.
+Qed.
+
+Lemma created_of_cons L V x v r : fst v = created_of L V x -> created_of ((x, v) :: L) V r = created_of L V r.
+Proof.
+  intro E. unfold created_of at 1. cbn [lget]. destruct (x =? r) eqn:Ex; [|reflexivity].
+  apply N.eqb_eq in Ex. subst. exact E.
+Qed.
+
+Lemma lget_touch V : forall ids L r,
+  lget (touch V L ids) r = if memN r ids then Some (created_of L V r, V) else lget L r.
+Proof.
+  unfold touch. induction ids as [|x tl IH]; intros L r; cbn [fold_left memN existsb]; [reflexivity|].
+  rewrite IH. fold (memN r tl). rewrite (N.eqb_sym r x). rewrite created_of_cons by reflexivity.
+  cbn [lget]. destruct (memN r tl); [rewrite orb_true_r; reflexivity|]. rewrite orb_false_r.
+  destruct (x =? r) eqn:Ex; [|reflexivity]. apply N.eqb_eq in Ex. subst. reflexivity.
+Qed.
+
+Lemma lfind_cons lh k L v : lfind ((k, L) :: lh) v = if k =? v then Some L else lfind lh v.
+Proof. reflexivity. Qed.
+
+(* ================================================================ the invariant *)
+(* a row agrees with the ledger: it is known, its created_at is right unless it is tainted, and (for a
+   visible row) its last_updated_at is right *)
+Definition row_ok (L : ledger) (T : list N) (vis : bool) (x : vrow) : Prop :=
+  exists c0 u0, lget L (fst x) = Some (c0, u0) /\
+    (~ In (fst x) T -> fst (snd x) = c0) /\ (vis = true -> snd (snd x) = u0).
+
+Definition Inv (m : manifest) (L : ledger) (T : list N) : Prop :=
+  m_stable m = true /\
+  (forall f, In f (m_frags m) -> wf_frag f) /\
+  (forall f x, In f (m_frags m) -> In x (prows f) -> row_ok L T false x) /\
+  (forall f x, In f (m_frags m) -> In x (vrows f) -> row_ok L T true x) /\
+  (forall r, lget L r <> None -> r < m_next m).
+
+Lemma row_ok_weaken L T T' vis x : (forall r, In r T -> In r T') -> row_ok L T vis x -> row_ok L T' vis x.
+Proof. intros Hs (c0 & u0 & H1 & H2 & H3). exists c0, u0. repeat split; auto. Qed.
+
+Lemma Inv_weaken m L T T' : (forall r, In r T -> In r T') -> Inv m L T -> Inv m L T'.
+Proof.
+  intros Hs (I0 & I1 & I2 & I3 & I4). repeat split; auto; intros f x Hf Hx; eapply row_ok_weaken; eauto.
+Qed.
+
+(* building the invariant of the new manifest fragment by fragment *)
+Lemma Inv_intro m L T :
+  m_stable m = true ->
+  (forall f, In f (m_frags m) -> wf_frag f /\ (forall x, In x (prows f) -> row_ok L T false x) /\
+                                  (forall x, In x (vrows f) -> row_ok L T true x)) ->
+  (forall r, lget L r <> None -> r < m_next m) -> Inv m L T.
+Proof.
+  intros H0 H H4. split; [exact H0|]. split; [intros f Hf; apply (H f Hf)|].
+  split; [intros f x Hf; apply (H f Hf)|]. split; [intros f x Hf; apply (H f Hf) | exact H4].
+Qed.
+
+(* frames: a fragment that keeps its rows and whose deletion vector grows *)
+Definition same_rows (f f' : frag) : Prop :=
+  f_ids f' = f_ids f /\ f_created f' = f_created f /\ f_updated f' = f_updated f /\ f_phys f' = f_phys f.
+
+Lemma same_rows_prows f f' : same_rows f f' -> prows f' = prows f.
+Proof. intros (A & B & C & D). unfold prows, frag_ids, cs_of, us_of. rewrite A, B, C, D. reflexivity. Qed.
+Lemma same_rows_wf f f' : same_rows f f' -> wf_frag f -> wf_frag f'.
+Proof.
+  intros (A & B & C & D) W. unfold wf_frag, frag_ids, cs_of, us_of in *. rewrite A, B, C, D. exact W.
+Qed.
+Lemma same_rows_vrows f f' x :
+  same_rows f f' -> (forall o, In o (f_del f) -> In o (f_del f')) -> In x (vrows f') -> In x (vrows f).
+Proof.
+  intros S Hd H. unfold vrows, live in *. rewrite (same_rows_prows _ _ S) in H. eapply live_from_mono; eauto.
+Qed.
